@@ -7,6 +7,7 @@ import (
 	"fmt"
 	"io"
 	"sync"
+	"sync/atomic"
 
 	"github.com/NethermindEth/juno/db"
 	"github.com/bits-and-blooms/bitset"
@@ -28,23 +29,36 @@ type RunningEventFilter struct {
 	database db.KeyValueStore
 
 	initialize RunningEventFilterInitializer
-	initErr    error
-	lazyOnce   sync.Once
+	lazyMu     sync.Mutex
+	lazyDone   atomic.Bool
 }
 
+// ensureInit runs the lazy initializer until it has succeeded once. A failed attempt is reported
+// to the caller and NOT latched: the initializer touches the database (it reads, and consumes, the
+// stored snapshot), so a transient failure there must not disable the filter - and with it every
+// later Store - for the rest of the process lifetime.
 func (f *RunningEventFilter) ensureInit() error {
-	if f.initialize != nil {
-		f.lazyOnce.Do(func() {
-			filter, err := f.initialize(f.database)
-			if err != nil {
-				f.initErr = fmt.Errorf("couldn't initialize the running event filter: %w", err)
-				return
-			}
-			f.inner = filter.inner
-			f.next = filter.next
-		})
+	if f.initialize == nil {
+		return nil
 	}
-	return f.initErr
+
+	if f.lazyDone.Load() {
+		return nil
+	}
+	f.lazyMu.Lock()
+	defer f.lazyMu.Unlock()
+	if f.lazyDone.Load() {
+		return nil
+	}
+
+	filter, err := f.initialize(f.database)
+	if err != nil {
+		return fmt.Errorf("couldn't initialize the running event filter: %w", err)
+	}
+	f.inner = filter.inner
+	f.next = filter.next
+	f.lazyDone.Store(true)
+	return nil
 }
 
 // NewRunningEventFilterHot returns a RunningEventFilter that wraps the provided
@@ -448,9 +462,9 @@ func (f *RunningEventFilter) UnmarshalBinary(data []byte) error {
 		return fmt.Errorf("read next block: %w", err)
 	}
 
-	f.initErr = nil
 	f.mu = sync.RWMutex{}
-	f.lazyOnce = sync.Once{}
+	f.lazyMu = sync.Mutex{}
+	f.lazyDone.Store(false)
 	f.initialize = nil
 
 	return nil
